@@ -6,7 +6,7 @@
   This file adds the vocabulary the property is stated in:
 
     * the Via chain as a list of elements (`viaElements`: every Via field line, joined with ", "
-      and split at commas — the SPEC view; the code reads `Header.Get("Via")` = first line only),
+      and split at commas — what the code reads too: `strings.Join(Header.Values("Via"), ", ")`),
     * the element an instance emits (`ownElement` = `<proto> <tag>`), the tag shape
       (`tagShape` = name ++ "-" ++ 20 lower-case hex digits),
     * the decomposition of `processRequest` around the Via modifier (`preVia` / `postVia`),
@@ -31,7 +31,8 @@ def viaName : Bytes := bs "Via"
 def viaLines (fs : List (Bytes × Bytes)) : List Bytes :=
   (fs.filter fun f => eqFold f.1 viaName).map (·.2)
 
-/-- what `req.Header.Get("Via")` yields: the first Via field line, "" when there is none -/
+/-- the first Via field line, "" when there is none (what `Header.Get("Via")` would yield; the
+    modifier reads all lines, `viaChain (viaLines fs)`) -/
 def firstVia (fs : List (Bytes × Bytes)) : Bytes := (viaLines fs).headD []
 
 /-- RFC 7230 §3.2.2: several field lines of a list-valued field = one line joined with ", " -/
@@ -42,7 +43,7 @@ def viaChain (lines : List Bytes) : Bytes := joinWith (bs ", ") lines
 def elementsOf (v : Bytes) : List Bytes :=
   ((splitComma v).map trimOWS).filter fun e => !e.isEmpty
 
-/-- the chain of Via elements of a message — the SPEC view: ALL field lines count -/
+/-- the chain of Via elements of a message: ALL field lines count -/
 def viaElements (lines : List Bytes) : List Bytes := elementsOf (viaChain lines)
 
 /-- the element this instance emits: `1.0 <tag>` / `1.1 <tag>` as the client spoke -/
@@ -124,6 +125,14 @@ def postVia (cfg : Cfg) (p : PreVia) (h4 : HMap) : Outcome :=
   | .http hp auth =>
     if p.g.scheme == bs "http" then .forwarded (.proxy hp) (writeRequest (.proxy hp) auth gOut)
     else .forwarded (.direct p.g.urlHost) (writeRequest (.direct p.g.urlHost) none gOut)
+  | .https hp auth =>
+    if p.g.scheme == bs "http" then .forwarded (.tlsProxy hp) (writeRequest (.tlsProxy hp) auth gOut)
+    else .forwarded (.direct p.g.urlHost) (writeRequest (.direct p.g.urlHost) none gOut)
+  | .socks5 hp _ => .forwarded (.socks hp) (writeRequest (.socks hp) none gOut)
+  | .other sc hp auth =>
+    if p.g.scheme == bs "http" then .forwarded (.otherProxy sc hp) (writeRequest (.otherProxy sc hp) auth gOut)
+    else .forwarded (.direct p.g.urlHost) (writeRequest (.direct p.g.urlHost) none gOut)
+  | .failed => .routeError
 
 /-- "no other refusal": the request reaches the Via modifier -/
 def reachesVia (cfg : Cfg) (ctx : Ctx) (r : Request) : Bool :=
